@@ -164,6 +164,17 @@ def gen_cases(rng, tier):
                 c[12] = "late:%d" % late
                 c[7] = ""
                 cases.append(c)
+    # over an unreliable transport the caller drives the retransmissions: one that starts to wait a little late (less than T1 after the
+    # send) still gets every transmission of the schedule in before the 64*T1 are over (7 for INVITE, 11 for others) and the timeout then
+    k4 = 0
+    for kind in ("inv", "ni"):
+        for late in (1, 120, 200, 380, 499):
+            c = _case("ls%d" % k4, kind, 0, []); k4 += 1
+            while len(c) < 13:
+                c.append("")
+            c[12] = "late:%d" % late
+            c[7] = ""
+            cases.append(c)
     # a caller that waits with receive_final(): however many provisional responses come first (a peer answers every copy of the request
     # with its 100 Trying, or sends 100 and then 183), the one final response is what it gets
     k = 0
@@ -212,7 +223,7 @@ def model_case(case, impl):
 
 
 def accepts(case, impl, model):
-    if case[0].startswith("lq"):
+    if case[0].startswith("lq") or case[0].startswith("ls"):
         return True          # the instants are the caller's: decided by the oracle on the sequence of results
     return impl == model
 
@@ -283,6 +294,16 @@ def oracle(case, impl):
             return ["responses %s arrived before 64*T1 had passed and the caller looked at %s ms: it was handed %r, expected %r (a timeout is reported when no response has arrived)" % (
                 case[4], case[12].split(":")[1], seq, want)]
         return []
+    if case[0].startswith("ls"):
+        late = int(case[12].split(":")[1])
+        sends = [int(x) for x in re.findall(r"\bS@(\d+)", impl.split("\t")[0])]
+        n = len(INV_SENDS if case[2] == "inv" else NI_SENDS)
+        out = []
+        if len([t for t in sends if t < TO]) != n or len(sends) != n:
+            out.append("no response, caller waiting from %d ms on: %d transmissions at %r, the RFC schedule has %d before the timeout at 64*T1" % (late, len(sends), sends, n))
+        if not re.search(r"\bT@%d\b" % TO, impl.split("\t")[0]):
+            out.append("no response, caller waiting from %d ms on: expected the timeout 64*T1 after the first send, got %s" % (late, impl.split("\t")[0][:200]))
+        return out
     impl = _shift(case, impl)
     kind, rel, arrs, horizon = _parse(case)
     toks = impl.split("\t")[0].split()
